@@ -234,12 +234,15 @@ func c02r2(c *core.Ctx) {
 		return ok && core.Callee(call) != nil && cn(core.Callee(call)) == "VerifyClientAuthenticator"
 	})
 	good, n := true, 0
-	core.Instrs(pf, func(i ssa.Instruction) {
-		if r, ok := i.(*ssa.Return); ok && len(res(r)) == 2 && core.IsNilConst(res(r)[1]) {
-			n++
-			if !core.Dominated(r, authOK) {
-				good = false
-			}
+	// path by path: the error may be one variable that is nil on the accepting path only
+	core.EnumPaths(pf, 2, 5000, func(pa core.Path) {
+		r := pa.Returns()
+		if r == nil || len(res(r)) != 2 || !core.IsNilConst(pa.ResolveAt(len(pa)-1, res(r)[1])) {
+			return
+		}
+		n++
+		if !pathEstablishes(pa, authOK) {
+			good = false
 		}
 	})
 	c.Check(good && n > 0, "proof-summary:"+fname(pf), pf.Pos(), "returns a nil error only on the true branch of srp VerifyClientAuthenticator",
